@@ -975,21 +975,33 @@ def evaluate(binary, cases, tag):
     return out
 
 
-def shrink(binary, src, coq, want_kind):
-    """delete statements (source line i+1 <-> coq stmt i) while the same kind of failure remains"""
+def shrink(binary, src, coq, want_kind, budget_s=75):
+    """delete statements (source line i+1 <-> coq stmt i) while the same kind of failure remains.
+    All deletion candidates of a round are evaluated in ONE batch (one coqc run); bounded by wall time."""
+    import time
+    t0 = time.time()
     pairs = list(zip(src[1:], coq))
-
-    def fails(cand):
-        s = [src[0]] + [a for a, _ in cand]
-        c = [b for _, b in cand]
+    n = 2
+    while len(pairs) >= 2 and time.time() - t0 < budget_s:
+        chunk = max(1, len(pairs) // n)
+        cands = []
+        for i in range(0, len(pairs), chunk):
+            c = pairs[:i] + pairs[i + chunk:]
+            if c:
+                cands.append(c)
         try:
-            r = evaluate(binary, [(s, c)], "c09shrink")[0]
+            res = evaluate(binary, [([src[0]] + [a for a, _ in c], [b for _, b in c]) for c in cands], "c09shrink")
         except common.Broken:
-            return False
-        return r[2] == want_kind
-
-    small = common.shrink_list(pairs, fails, max_rounds=12)
-    return [src[0]] + [a for a, _ in small], [b for _, b in small]
+            break
+        hit = [c for c, r in zip(cands, res) if r[2] == want_kind]
+        if hit:
+            pairs = min(hit, key=len)
+            n = max(n - 1, 2)
+        elif chunk == 1:
+            break
+        else:
+            n = min(len(pairs), n * 2)
+    return [src[0]] + [a for a, _ in pairs], [b for _, b in pairs]
 
 
 def load_corpus():
@@ -1072,7 +1084,9 @@ def run(chk):
     found = 0
     reported_known = set()
     model_broken = []
-    for n, ((impl_line, model, kind, detail), (s, c)) in enumerate(zip(results, cases)):
+    order = sorted(range(len(cases)), key=lambda i: (len(cases[i][1]), sum(len(x) for x in cases[i][1])))
+    for n in order:
+        (impl_line, model, kind, detail), (s, c) = results[n], cases[n]
         if kind == "known-funref":
             k = known_match(s, kind)
             if k:
